@@ -250,6 +250,10 @@ fn schema_type_accepts(ty: &str, v: &V) -> Option<bool> {
         ("bool", V::Bool(_)) => Some(true),
         ("bool", V::Str(_) | V::I32(_) | V::I64(_) | V::F64(_)) => Some(false),
         ("any", _) => Some(true),
+        ("vector(3)", V::Vec(v)) => Some(v.len() == 3),
+        ("vector(3)", V::Str(_) | V::I32(_) | V::I64(_) | V::Bool(_) | V::F64(_)) => Some(false),
+        ("vector", V::Vec(_)) => Some(true),
+        ("vector", V::Str(_) | V::I32(_) | V::I64(_) | V::Bool(_) | V::F64(_)) => Some(false),
         _ => None,
     }
 }
